@@ -35,15 +35,16 @@
 (*        that were vetted by the configured policies.                    *)
 (*   "TlsaFutureShared"  daneDelivery.PrepareConn starts the TLSA lookup  *)
 (*        in a goroutine that stores its result in whatever future the    *)
-(*        delivery object holds WHEN THAT GOROUTINE GETS TO RUN.  If the  *)
-(*        attempt for MX j ends without anybody waiting for the lookup    *)
-(*        (environment fact mx[j].slow: nothing blocks between starting   *)
-(*        it and moving on - MX j is refused by CheckMX of local_policy,  *)
-(*        its connect fails, or CheckConn of mtasts fails), the result    *)
-(*        for MX j may be delivered to the future created for the next MX *)
+(*        delivery object holds WHEN THE LOOKUP FINISHES (the field is    *)
+(*        read after discoverTLSA returns).  If the attempt for MX j ends *)
+(*        while its lookup is unanswered (environment fact mx[j].slow;    *)
+(*        MX j is refused by CheckMX of local_policy, its connect fails,  *)
+(*        or CheckConn of mtasts fails, so nobody waited for it), the     *)
+(*        result for MX j is stored in the future created for the next MX *)
 (*        (Lookup(i, TRUE)) and CheckConn vets that MX against the TLSA   *)
 (*        outcome of the other host.  In the design every lookup answers  *)
-(*        into its own future (only Lookup(i, FALSE)).                    *)
+(*        into its own future (only Lookup(i, FALSE)); fixed in the tree  *)
+(*        by commit 8e48811.                                               *)
 (***************************************************************************)
 EXTENDS RemoteObs, TLC, SequencesExt, Json
 
@@ -208,7 +209,7 @@ LookupFail(res) ==
 (* The TLSA lookup of an earlier MX is still outstanding (mx[j].slow, never waited   *)
 (* for) when dane's PrepareConn runs for MX i.  cross = TRUE: its result is stored   *)
 (* in the future just created for MX i (possible only with the deviation: the         *)
-(* lookup goroutine picks the delivery object's current future when it gets to run); *)
+(* lookup goroutine picks the delivery object's current future when it finishes);    *)
 (* cross = FALSE: it is stored in its own future, which nobody reads any more.        *)
 CheckMXCore(cross) ==
   /\ pc = "mx" /\ mxi <= NMX
